@@ -1811,9 +1811,15 @@ struct Exec {
             return;
         }
         Res want = dispatch(plan, L, m->defs, e.args);
-        verify_call(
-            s, L, *m, e.args, args, want, e.resolve != 0, false, "C01");
-        log("call " + where);
+        // the same call again and again: an error raised (and thrown out of
+        // the handler) n times must leave nothing behind
+        int rep = std::max(1, std::min(e.repeat, 1000));
+        for (int i = 0; i < rep && !stop; ++i)
+            verify_call(
+                s, L, *m, e.args, args, want, e.resolve != 0, false, "C01");
+        if (rep > 1 && want.kind != RES_DEF)
+            ++res.st.faults["handler_throws_repeatedly"];
+        log("call " + where + " x" + std::to_string(rep));
     }
 
     bool held_usable(PolState& s, const HeldVp& h, const Lattice& L) {
@@ -2322,7 +2328,16 @@ RunResult run_plan(const Plan& plan, const ExecOpts& opts) {
     RunResult base = execute(plan, opts);
     if (base.status == RS_INVALID || plan.diff.empty())
         return base;
-    if (base.status == RS_VIOLATION && opts.stop_at_first)
+    auto has_focus = [&](const RunResult& r) {
+        if (opts.focus.empty())
+            return r.status == RS_VIOLATION;
+        for (auto& v : r.v)
+            if (v.prop == opts.focus)
+                return true;
+        return false;
+    };
+    // (observations of other properties' oracles do not stop the differential)
+    if (has_focus(base) && opts.stop_at_first)
         return base;
 
     if (plan.diff == "orders") {
@@ -2361,7 +2376,7 @@ RunResult run_plan(const Plan& plan, const ExecOpts& opts) {
                         kv.first);
             }
             ++vi;
-            if (base.status == RS_VIOLATION && opts.stop_at_first)
+            if (has_focus(base) && opts.stop_at_first)
                 break;
         }
         return base;
